@@ -229,6 +229,7 @@ local JSExprFn jcStringSExpr;
 local JavaCodeList jc0CreateModifiers(int modifiers);
 local void jc0PrintWithParens(JavaCodePContext ctxt, JavaCodeClass oclss, JavaCode arg);
 local Bool jc0NeedsParens(JavaCodeClass c1, JavaCodeClass c2);
+local void jc0PrintOperand(JavaCodePContext ctxt, JavaCodeClass oclss, JavaCode arg, Bool isLeft);
 local String jc0EscapeString(String s, Bool terminal);
 local Bool jcBlockHdrIndent(JavaCode code);
 local JavaCode jcBinaryOp(JavaCodeClass c, JavaCode lhs, JavaCode rhs);
@@ -1216,9 +1217,36 @@ jcBinOpPrint(JavaCodePContext ctxt, JavaCode code)
 	JavaCode lhs = jcoArgv(code)[0];
 	JavaCode rhs = jcoArgv(code)[1];
 
-	jc0PrintWithParens(ctxt, thisClss, lhs);
+	jc0PrintOperand(ctxt, thisClss, lhs, true);
 	jcoPContextWrite(ctxt, thisClss->txt);
-	jc0PrintWithParens(ctxt, thisClss, rhs);
+	jc0PrintOperand(ctxt, thisClss, rhs, false);
+}
+
+/*
+ * Operand of a binary operator.  An operand of the same precedence must be
+ * parenthesised unless it is the same operator on the side the operator
+ * associates to: a - (b - c), a - (b + c), a/(b*c), (a || b) && c.
+ */
+local void
+jc0PrintOperand(JavaCodePContext ctxt, JavaCodeClass oClss, JavaCode arg, Bool isLeft)
+{
+	JavaCodeClass aClss = jcoClass(arg);
+	Bool parens = jc0NeedsParens(oClss, aClss);
+
+	if (!parens && aClss->prec != 0 && aClss->prec == oClss->prec
+	    && oClss->assoc != JCO_NONE) {
+		Bool assocSide = isLeft ? oClss->assoc == JCO_LR
+					: oClss->assoc == JCO_RL;
+		parens = !(assocSide && aClss == oClss);
+	}
+	if (parens) {
+		jcoPContextWrite(ctxt, "(");
+		jcoWrite(ctxt, arg);
+		jcoPContextWrite(ctxt, ")");
+	}
+	else {
+		jcoWrite(ctxt, arg);
+	}
 }
 
 local void
